@@ -22,10 +22,10 @@ Thorough == EnvNat("VERIF_THOROUGH") = 1
 
 -----------------------------------------------------------------------------
 (* ============================ the contract ============================= *)
-PubkeyUses == { "ser33", "ser65", "neg", "combneg", "comb", "tadd", "tmul", "cmp", "sort", "xonly", "ecdsa", "ecdh", "ellenc",
-                "magg", "mngen", "mpsv", "mnproc", "adenc", "adver_pk", "adver_ek", "adrec", "aeh" }
+PubkeyUses == { "ser33", "ser65", "neg", "combneg", "comb", "tadd", "tmul", "cmp", "sort", "xonly", "xonly_np", "ecdsa", "ecdh", "ellenc",
+                "magg", "magg_nopk", "magg_nocache", "magg_none", "mngen", "mpsv", "mnproc", "adenc", "adver_pk", "adver_ek", "adrec", "aeh" }
 XonlyUses  == { "ser", "cmp", "tadd", "tcheck", "schnorr", "agg", "aggver" }
-SigUses    == { "der", "der_short", "compact", "norm", "verify", "adrec", "s2c", "aeh" }
+SigUses    == { "der", "der_short", "compact", "norm", "norm_null", "verify", "adrec", "s2c", "aeh" }
 RpUses(p)  == IF p = 1 THEN { "rp_info", "rp_verify", "rp_rewind" } ELSE { "info", "verify", "rewind" }
 
 \* entry points that are run on the bytes whatever the primary call returned
@@ -38,6 +38,9 @@ Always(e) ==
     [] e = "UAdaptor"    -> { "decrypt", "recover" }
     [] e = "URangeproof" -> RpUses(0)
     [] e = "UBpppVerify" -> { "again" }
+    [] e = "USchnorr"    -> { "null_msg0" }          \* msg = NULL is legal iff msglen = 0
+    [] e = "UAggVerify"  -> { "null0" }              \* NULL arrays are legal iff the counts are 0
+    [] e = "UIncAgg"     -> { "null0" }
     [] OTHER -> { }
 \* consumers of the object a successful parse produced
 IfOk(e) ==
@@ -60,8 +63,19 @@ IfOk(e) ==
     [] OTHER -> { }
 \* objects derived from the untrusted bytes by a further call are handed on as well
 Has1(u, k) == k \in DOMAIN u /\ u[k] = 1
+\* a proof that passes ring verification: rewind with the prover's nonce (r) and another one (w), message buffer and length (ml) /
+\* buffer only (m) / neither (0), blind and value outputs given (bv) or NULL (00) -- every legal combination of the optional outputs
+RwNames(pfx) == { pfx \o "rw_" \o n \o "_" \o o \o "_" \o b : n \in { "r", "w" }, o \in { "ml", "m", "0" }, b \in { "bv", "00" } }
+RwChain(pfx, u) == IF Has1(u, pfx \o "verify") THEN RwNames(pfx) ELSE { }
+MaggChain(u) == IF Has1(u, "magg") THEN { "mget", "mtweak_xo", "mtweak_ec_null" } ELSE { }
 Chained(e, u) ==
-  CASE e = "USigDer"   -> IF Has1(u, "lax") THEN { "lax_norm", "lax_verify", "lax_compact" } ELSE { }
+  CASE e = "UPubkey"   -> MaggChain(u)
+    [] e = "UEllswift" -> MaggChain(u)
+    [] e = "USeckey"   -> IF Has1(u, "keypair") THEN { "kp_xonly", "kp_xonly_np", "kp_pub", "kp_sec" } ELSE { }
+    [] e = "URangeproof" -> RwChain("", u)
+    [] e = "UCommit"   -> RwChain("rp_", u)
+    [] e = "UGenerator" -> RwChain("rp_", u)
+    [] e = "USigDer"   -> IF Has1(u, "lax") THEN { "lax_norm", "lax_verify", "lax_compact" } ELSE { }
     [] e = "UAggnonce" -> IF Has1(u, "nproc") THEN { "s_psv", "s_agg", "s_parity" } ELSE { }
     [] e = "UAdaptor"  -> IF Has1(u, "decrypt") THEN { "d_verify", "d_recover", "d_compact" } ELSE { }
     [] OTHER -> { }
